@@ -183,7 +183,12 @@ def _prune_old_facts(keep, limit=40):
         ds = [d for d in os.listdir(base) if d not in (keep, "v047")]
     except FileNotFoundError:
         return
-    ds.sort(key=lambda d: os.path.getmtime(os.path.join(base, d)))
+    def _mt(d):
+        try:
+            return os.path.getmtime(os.path.join(base, d))
+        except OSError:
+            return 0.0      # removed by a concurrent check in the meantime
+    ds.sort(key=_mt)
     now = time.time()
     for d in ds[:-limit] if len(ds) > limit else []:
         # never remove facts another process may just have been handed: only entries untouched for two hours
